@@ -790,7 +790,21 @@ func gridExec(t *document.Table, op Op, i int) string {
 	case "ClearCellContent":
 		return errRet(t.ClearCellContent(r, c))
 	case "AddNestedTable":
-		_, err := t.AddNestedTable(r, c, &document.TableConfig{Rows: 1, Cols: 2, Width: 800})
+		cfg := &document.TableConfig{Rows: 1, Cols: 2, Width: 800}
+		switch op.Str("cfg") {
+		case "", "ok":
+		case "no-rows":
+			cfg.Rows = 0
+		case "no-cols":
+			cfg.Cols = 0
+		case "fewer-widths":
+			cfg.ColWidths = []int{400}
+		case "more-widths":
+			cfg.ColWidths = []int{300, 300, 200}
+		default:
+			return "unknown-op"
+		}
+		_, err := t.AddNestedTable(r, c, cfg)
 		return errRet(err)
 	case "AddCellList":
 		return errRet(t.AddCellList(r, c, &document.CellListConfig{Type: document.ListTypeBullet, Items: []string{"+a", "+b"}}))
@@ -840,6 +854,25 @@ func gridExec(t *document.Table, op Op, i int) string {
 	case "ClearTable":
 		t.ClearTable()
 		return "ok"
+	case "TblFmt":
+		switch op.Str("f") {
+		case "ApplyTableStyle":
+			return errRet(t.ApplyTableStyle(&document.TableStyleConfig{StyleID: "TableGrid", FirstRowHeader: true, BandedRows: true, LastColumnTotal: true}))
+		case "SetTableBorders":
+			b := &document.BorderConfig{Style: document.BorderStyleSingle, Width: 6, Color: "00FF00"}
+			return errRet(t.SetTableBorders(&document.TableBorderConfig{Top: b, Left: b, Bottom: b, Right: b, InsideH: b, InsideV: b}))
+		case "SetTableShading":
+			return errRet(t.SetTableShading(&document.ShadingConfig{Pattern: document.ShadingPatternSolid, BackgroundColor: "DDDDDD"}))
+		case "SetTableLayout":
+			return errRet(t.SetTableLayout(&document.TableLayoutConfig{Alignment: document.TableAlignRight}))
+		case "SetTableAlignment":
+			return errRet(t.SetTableAlignment(document.TableAlignLeft))
+		case "RemoveTableBorders":
+			return errRet(t.RemoveTableBorders())
+		case "SetTablePageBreak":
+			return errRet(t.SetTablePageBreak(&document.TablePageBreakConfig{KeepWithNext: true, KeepLines: true}))
+		}
+		return "unknown-op"
 	case "RowFmt":
 		n := t.GetRowCount()
 		if e := t.SetRowHeight(n-1, &document.RowHeightConfig{Height: 20, Rule: document.RowHeightExact}); e != nil {
